@@ -40,9 +40,9 @@ def main():
         i = bad[k]
         w = int(impl[i].split()[1], 16)
         if r == w:
-            agree[meta[i]].append((w, mon[i], ops[i], texts[k]))
+            agree[meta[i][0]].append((w, mon[i], ops[i], texts[k]))
         else:
-            disagree[meta[i]] += 1
+            disagree[meta[i][0]] += 1
     er = json.loads(gen_a64.ERRATA.read_text()) if gen_a64.ERRATA.exists() else []
     have = {(e["name"], tuple(e["ops"]), e["op"]) for e in er}
     added = 0
